@@ -143,7 +143,7 @@ def parse_stats(stdout):
     for line in stdout.splitlines():
         if line.startswith("STATS "):
             stats = json.loads(line[6:])
-        elif line.startswith("VIOLATION "):
+        elif line.startswith("VIOLATION property="):
             violations.append(line)
     return stats, violations
 
@@ -322,10 +322,10 @@ def run_allocfault(binary, prop, seed, n):
                     stats["failure_reported_without_abort"] += 1
             elif rc in (134, -6) and "memory allocation of" in err:
                 stats["aborted_cleanly_on_alloc_failure"] += 1
-            elif rc == 1 and "VIOLATION " in out:
+            elif rc == 1 and "VIOLATION property=" in out:
                 if not violations:
                     p = save_replay("%s-allocfault-%d-%d.trace" % (prop, seed, i), (extract_block(out, "REPLAY") or "") + "# engine write-sim-allocfault\n")
-                    violations += [l.replace("replay=-", "replay=" + p) for l in out.splitlines() if l.startswith("VIOLATION ")]
+                    violations += [l.replace("replay=-", "replay=" + p) for l in out.splitlines() if l.startswith("VIOLATION property=")]
             elif rc == 2:
                 raise HarnessError("write-sim allocfault harness error: %s" % err[-1500:])
             else:
